@@ -1,4 +1,5 @@
 """C12 Require sorting only permutes statements inside a require block - static necessary conditions."""
+import json
 from engine import Report
 from facts import *
 import r_skip
@@ -136,73 +137,141 @@ def rule_group(ctx, prop):
                                   "Other | different kind | line distance > 1; requires join a group only otherwise")
     for cfg, prog in ctx.programs.items():
         f = prog.fn("stylua_lib", "sort_requires::partition_nodes_into_groups")
+        if f is not None:
+            from inline import inlined, small_helper
+            f = inlined(prog, f, small_helper(prog, keep=r"extract_identifier_from_token$|get_expression_kind$"))
         if not rep.anchor(f is not None, "partition_nodes_into_groups", cfg):
             continue
-        # the bool whose true edge dominates the construction of a new RequiresGroup
-        aggs = [(b, s) for b, si_, s in f.stmts() if s["k"] == "assign" and s["rv"]["k"] == "agg" and
-                s["rv"].get("variant") == "RequiresGroup"]
-        if not rep.anchor(len(aggs) == 1, "single RequiresGroup construction", cfg):
+        # decision table of one loop iteration, read off the enumerated paths: which facts about the previous part lead to
+        # the construction of a new RequiresGroup before the statement is pushed
+        from paths import Enumerator, TooManyPaths
+        try:
+            pres = Enumerator(f, track_cmp=True, summaries=False, max_visits=2, max_paths=400000).run()
+        except TooManyPaths:
+            rep.anchor(False, "partition_nodes_into_groups: too many paths", cfg)
             continue
-        ab = aggs[0][0]
-        flag = None
-        for sb in f.dominators().get(ab, ()):
-            t = f.blocks[sb]["term"]
-            if t["k"] == "switch" and t["ty"] == "bool" and f.dominates(t["otherwise"], ab) and t["otherwise"] != sb:
-                l = op_local(t["on"])
-                ds = f.defs().get(l, [])
-                while len(ds) == 1 and ds[0][1] != "term" and ds[0][2]["rv"]["k"] == "use" and not is_const(ds[0][2]["rv"]["o"]) \
-                        and not op_place(ds[0][2]["rv"]["o"]).get("p"):
-                    l = op_place(ds[0][2]["rv"]["o"])["l"]
-                    ds = f.defs().get(l, [])
-                if len(ds) >= 3:
-                    flag = (l, ds)
-        if not rep.anchor(flag is not None, "the create-new-group flag", cfg):
+        agg_blocks = {b for b, si_, s in f.stmts() if s["k"] == "assign" and s["rv"]["k"] == "agg" and
+                      s["rv"].get("variant") == "RequiresGroup"}
+        if not rep.anchor(len(agg_blocks) >= 1, "RequiresGroup construction", cfg):
             continue
-        l, ds = flag
-        reasons = set()
-        for dbi, dsi, s in ds:
-            if dsi == "term":
-                reasons.add("call:" + callee(s).split("::")[-1])
+        last_calls = {b for b, t in f.calls() if re.search(r"(slice::<impl \[T\]>|Vec::<T, A>)::last$", callee(t)) or callee(t).endswith("::last")}
+        nexts = [b for b, t in f.calls() if callee(t).endswith("Iterator>::next") or callee(t).endswith("Iterator::next")]
+        rows = {}
+        dist_ok = True
+        dist_cache = {}
+        for st in pres:
+            head = None
+            for b, c, t in st.calls:
+                if b in nexts:
+                    head = b
+                    break
+            if head is None:
                 continue
-            rv = s["rv"]
-            if rv["k"] == "use" and is_const(rv["o"]) and rv["o"].get("v") is True:
-                if guarded_by_variant(f, dbi, "option::Option", "None"):
-                    reasons.add("no-previous-part")
-                elif guarded_by_variant(f, dbi, "BlockPartition", "Other"):
-                    reasons.add("previous-is-Other")
-                else:
-                    # under the true edge of `other_kind != expression_kind`
-                    ok = False
-                    for sb in f.dominators().get(dbi, ()):
-                        tt = f.blocks[sb]["term"]
-                        if tt["k"] == "switch" and tt["ty"] == "bool" and f.dominates(tt["otherwise"], dbi):
-                            pr = provenance(f, tt["on"], through=None)
-                            for r in pr:
-                                if r[0] == "call" and r[1].endswith("::ne") and "GroupKind" in (f.blocks[r[2]]["term"].get("fn") or ""):
-                                    ok = True
-                    reasons.add("kind-differs" if ok else "true:unexplained")
-            elif rv["k"] == "use" and is_const(rv["o"]) and rv["o"].get("v") is False:
-                reasons.add("false-constant")
-            elif rv["k"] == "binop":
-                b = rv["b"]
-                if rv["op"] == "Gt" and is_const(b) and b.get("v") == 1:
-                    # lhs = current_line - previous_line
-                    pr = provenance(f, rv["a"], through=None)
-                    sub = any(r[0] == "op" and r[1].startswith("Sub") for r in pr)
-                    lines = sum(1 for r in pr if r[0] == "call" and r[1].endswith("Position::line"))
-                    reasons.add("line-distance>1" if sub and lines == 2 else "distance:unexpected-operands")
-                else:
-                    reasons.add(f"compare:{rv['op']}:{b.get('v') if is_const(b) else '?'}")
+            # first iteration only: calls / constraints between the first and the second head next()
+            calls1 = []
+            seen_head = 0
+            for b, c, t in st.calls:
+                if b == head:
+                    seen_head += 1
+                    if seen_head == 2:
+                        break
+                    continue
+                if seen_head == 1:
+                    calls1.append((b, c, t))
+            blocks1 = set()
+            started = False
+            for b in st.trail:
+                if b == head:
+                    if started:
+                        break
+                    started = True
+                if started:
+                    blocks1.add(b)
+            if not any(re.search(r"extract_identifier_from_token$", c) for b, c, t in calls1):
+                continue          # not the require branch
+            hist1 = []
+            seen_head = 0
+            for k, v in st.hist:
+                if k == f"call:{head}":
+                    seen_head += 1
+                    if seen_head == 2:
+                        break
+                    continue
+                if seen_head == 1:
+                    hist1.append((k, v))
+            lastb = [b for b, c, t in calls1 if b in last_calls]
+            opt = part = None
+            for k, v in hist1:
+                if lastb and k == f"call:{lastb[0]}" and v in ("Some", "None"):
+                    opt = opt or v
+                if isinstance(v, str) and v in ("Other", "RequiresGroup") and lastb and k.startswith(f"call:{lastb[0]}."):
+                    part = part or v
+                if isinstance(v, tuple) and v[0] == "not" and lastb and k.startswith(f"call:{lastb[0]}.") and \
+                        set(v[1]) & {"Other", "RequiresGroup"}:
+                    part = part or ("RequiresGroup" if "Other" in v[1] else "Other")
+            ne = None
+            dec1 = {int(k[4:]): v for k, v in hist1 if isinstance(k, str) and k.startswith("dec:")}
+            for b, c, t in calls1:
+                if (c.endswith("::ne") or c.endswith("::eq")) and "GroupKind" in (t.get("fn") or "") and b in dec1:
+                    ne = dec1[b] if c.endswith("::ne") else (not dec1[b])
+            gt = None
+            for k, v in hist1:
+                if k == "cmp":
+                    op, a, b_, outcome = v
+                    if is_const(b_) and b_.get("v") == 1 and op in ("Gt", "Le"):
+                        gt = outcome if op == "Gt" else (not outcome)
+                        ck = json.dumps(a, sort_keys=True)
+                        if ck in dist_cache:
+                            if not dist_cache[ck]:
+                                dist_ok = False
+                            continue
+                        pr = provenance(f, a, through=None)
+                        sub = any(r[0] == "op" and r[1].startswith("Sub") for r in pr)
+                        lines = sum(1 for r in pr if r[0] == "call" and r[1].endswith("Position::line"))
+                        srcs = set()
+                        for r in pr:
+                            if r[0] == "call" and r[1].endswith("Position::line"):
+                                srcs |= {x.split("::")[-1] for x in prov_calls(provenance(f, f.blocks[r[2]]["term"]["args"][0]))
+                                         if x.endswith("start_position") or x.endswith("end_position")}
+                        dist_cache[ck] = sub and lines == 2 and srcs == {"start_position", "end_position"}
+                        if not dist_cache[ck]:
+                            dist_ok = False
+                    elif op in ("Gt", "Ge", "Lt", "Le") and (is_const(b_) or is_const(a)):
+                        gt = ("other", op, (b_ if is_const(b_) else a).get("v"))
+            created = bool(blocks1 & agg_blocks)
+            rows.setdefault((opt, part, ne, gt if not isinstance(gt, tuple) else str(gt)), set()).add(created)
+
+        def expected(opt, part, ne, gt):
+            if opt == "None":
+                return True
+            if part == "Other":
+                return True
+            if ne is True:
+                return True
+            if ne is False and gt is True:
+                return True
+            if ne is False and gt is False:
+                return False
+            return None
+        classes = set()
+        bad = []
+        for (opt, part, ne, gt), outs in sorted(rows.items(), key=str):
+            want = expected(opt, part, ne, gt)
+            if want is None or outs != {want}:
+                bad.append(((opt, part, ne, gt), sorted(outs), want))
             else:
-                reasons.add("other:" + rv["k"])
-        want = {"no-previous-part", "previous-is-Other", "kind-differs", "line-distance>1"}
-        ok = reasons == want
-        rep.inst(f"{f.key} new-group conditions", {"found": sorted(reasons)}, cfg, ok=ok)
+                classes.add("no-previous-part" if opt == "None" else "previous-is-Other" if part == "Other" else
+                            "kind-differs" if ne else "line-distance>1" if gt else "adjacent-same-kind-joins")
+        want_classes = {"no-previous-part", "previous-is-Other", "kind-differs", "line-distance>1", "adjacent-same-kind-joins"}
+        ok = not bad and classes == want_classes and dist_ok
+        rep.inst(f"{f.key} new-group decision table", {"rows": {str(k): sorted(v) for k, v in rows.items()}}, cfg, ok=ok)
         if not ok:
-            rep.violation(f"{f.key} new-group-conditions {sorted(reasons)}",
-                          f"a new require group is started on {sorted(reasons)}; documented: {sorted(want)} - groups "
-                          f"separated by a blank line, another statement or a different kind could merge (or adjacent "
-                          f"requires be split)", f.loc(), cfg)
+            reasons = sorted(classes) + [f"row{r[0]}->{r[1]}" for r in bad] + ([] if dist_ok else ["distance:unexpected-operands"])
+            rep.violation(f"{f.key} new-group-conditions {reasons}",
+                          f"a new require group is started on {reasons}; documented: no previous part | previous part is not a "
+                          f"require group | different kind | more than one line between the end of the previous require and "
+                          f"the start of this one - groups separated by a blank line, another statement or a different kind "
+                          f"could merge (or adjacent requires be split)", f.loc(), cfg)
         # a non-require statement closes the current group: the fall-through path pushes BlockPartition::Other
         others = [(b, s) for b, si_, s in f.stmts() if s["k"] == "assign" and s["rv"]["k"] == "agg" and s["rv"].get("variant") == "Other"]
         rep.inst(f"{f.key} non-require statements open an Other part", {"sites": len(others)}, cfg, ok=len(others) >= 1)
